@@ -33,7 +33,17 @@ type Cfg struct {
 
 func Bit(m, i int) bool { return m&(1<<i) != 0 }
 
-func Fail(i int) error { return fmt.Errorf("fail%d", i) }
+// Fail: some of the faults wrap context errors of some other context (a fault like any other while this pipeline's
+// context is live).
+func Fail(i int) error {
+	switch {
+	case i%2 == 0:
+		return fmt.Errorf("fail%d: %w", i, context.DeadlineExceeded)
+	case i%3 == 0:
+		return fmt.Errorf("fail%d: %w", i, context.Canceled)
+	}
+	return fmt.Errorf("fail%d", i)
+}
 
 func tick(n int) time.Duration { return time.Duration(n) }
 
